@@ -158,7 +158,7 @@ func runC14(c *Ctx) {
 		idAlloc, _ := constant.Int64Val(w.Const("client", "timerIDRefreshAlloc"))
 		idPerms, _ := constant.Int64Val(w.Const("client", "timerIDRefreshPerms"))
 		okA, okP := false, false
-		w.eachInstr(on, func(in ssa.Instruction) {
+		w.eachInstrDeep(on, func(in ssa.Instruction) {
 			call, ok := in.(*ssa.Call)
 			if !ok {
 				return
@@ -176,7 +176,10 @@ func runC14(c *Ctx) {
 			}
 		})
 		okB := false
-		for _, a := range w.Func("client", "", "NewUDPConn").AnonFuncs {
+		for _, a := range w.helpersOf(w.Func("client", "", "NewUDPConn")) {
+			if a.Parent() == nil && w.singleSiteCI(a) == nil {
+				continue // the constructor itself: the handler is a closure or a helper of one
+			}
 			w.eachInstr(a, func(in ssa.Instruction) {
 				if call, ok := in.(*ssa.Call); ok && call.Call.StaticCallee() == mb {
 					okB = true
